@@ -79,9 +79,12 @@ func c14sSearches() []*c14sSearch {
 	dFull = c14sEnvInt("VERIF_C14S_DEPTH", dFull)
 	var out []*c14sSearch
 	// the two focused searches are cheap: first, so that a deadline cannot starve them
-	out = append(out, &c14sSearch{name: "protection/two-eligible", cfg: c14sCfg{1, 2}, prefix: c14sOpsNamed(c14sStarts[1].ops...), ops: protect, depth: dProt})
-	out = append(out, &c14sSearch{name: "accounting/empty", cfg: c14sCfg{1, 2}, ops: account, depth: dAcc})
-	for _, cfg := range []c14sCfg{{1, 2}, {2, 3}} {
+	out = append(out, &c14sSearch{name: "protection/two-eligible", cfg: c14sCfg{1, 2, 0}, prefix: c14sOpsNamed(c14sStarts[1].ops...), ops: protect, depth: dProt})
+	out = append(out, &c14sSearch{name: "accounting/empty", cfg: c14sCfg{1, 2, 0}, ops: account, depth: dAcc})
+	// the decaying tag with a decay function that overshoots zero (DecayFixed(3): 5 -> 2 -> removed with -1 "left")
+	decay := c14sOpsNamed("Connected(A1)", "Connected(B1)", "Disconnected(A1)", "TrimOpenConns", "Advance(5s)", "TagPeer(B,x,5)", "Bump(A,d,+5)", "Remove(A,d)", "Bump(B,d,+5)")
+	out = append(out, &c14sSearch{name: "decay-overshoot/empty", cfg: c14sCfg{1, 2, 3}, ops: decay, depth: dAcc + 1})
+	for _, cfg := range []c14sCfg{{1, 2, 0}, {2, 3, 0}} {
 		for _, st := range c14sStarts {
 			d := dFull
 			if !thorough && cfg.low == 2 && st.name != "empty" && st.name != "three-eligible" {
@@ -96,7 +99,7 @@ func c14sSearches() []*c14sSearch {
 	// start states is the explicit one (with high=2 the tick inside the start prefix has already closed a peer)
 	for _, st := range c14sStarts {
 		if st.name == "two-eligible" || (thorough && (st.name == "three-eligible" || st.name == "mixed-ages")) {
-			out = append(out, &c14sSearch{name: "full-alphabet/" + st.name, cfg: c14sCfg{1, 3}, prefix: c14sOpsNamed(st.ops...), ops: full, depth: dFull})
+			out = append(out, &c14sSearch{name: "full-alphabet/" + st.name, cfg: c14sCfg{1, 3, 0}, prefix: c14sOpsNamed(st.ops...), ops: full, depth: dFull})
 		}
 	}
 	return out
